@@ -83,8 +83,11 @@ impl SimChain {
             preload_unverified_tx,
             Arc::clone(&is_pending_verify),
         );
-        let chain_service =
-            ChainService::new(builder.shared.clone(), process_block_rx.clone(), orphan_broker);
+        let chain_service = ChainService::new(
+            builder.shared.clone(),
+            process_block_rx.clone(),
+            orphan_broker,
+        );
         SimChain {
             shared: builder.shared,
             chain_service,
